@@ -34,7 +34,25 @@ TRUSTED = ["the Cartesian parser is an oracle of the model: which nodes `parse_c
            "star traversal modelled directly (the shared traversal model has no hook for custom run policies); "
            "`is_occupied` is not modelled there: under the checked well-formedness (a node's name contains the id of "
            "exactly one selected worker) only the owner ever visits a node",
-           "the compiled driver drv_tools (falls back to `lake env lean --run Driver/Tools.lean` when it is stale)"]
+           "the compiled driver drv_tools (falls back to `lake env lean --run Driver/Tools.lean` when it is stale)",
+           "translator tie (runChain_matches_source): harness/pygen.py on the `try` body and the `except` handler of the "
+           "chain loop of Manu.run; harness/pygen_pxcmd.py cuts the loop out of Manu.run (everything in front of and "
+           "behind the loop is pinned: `retcode = 0`, `return retcode`) and matches the loop body structurally "
+           "(count; getattr outside the try; one `try … except Exception as error`); the skeleton genChainStep / "
+           "genChainLoop / genManuChain printed in I2N/Extracted/GenManu.lean (what try/except and the `for` over "
+           "`enumerate` mean; the step call is the only expression of the try body that may raise) and the atom "
+           "`setup_func(config, \"0m%s\" % i) in [None, 0]` = not Outcome.fails are hand written"]
+
+
+def extract(ctx):
+    """second tie: the chain loop of Manu.run regenerated from the CURRENT source (raises pygen.Unsupported when the
+    loop left the expected shape; run.py records that as a proof problem and searches for a failing input)"""
+    import pygen_pxcmd
+    if pygen_pxcmd.extract_manu(ctx):
+        ctx.notes.append("I2N/Extracted/GenManu.lean changed: the source of the chain loop of Manu.run differs from the "
+                         "one the committed file was generated from (runChain_matches_source is re-checked)")
+    ctx.extra["regenerated"] = ("lean/I2N/Extracted/GenManu.lean (chain loop of Manu.run via harness/pygen_pxcmd.py + "
+                                "harness/pygen.py)")
 
 # -- independent knowledge about the shipped suite (configs/nets.cfg, guest-os.cfg, objects-overwrite.cfg) ---------
 VARIANTS = {"vm1": ["CentOS", "Fedora"], "vm2": ["Win10", "Win7"], "vm3": ["Ubuntu", "Kali"]}
